@@ -317,13 +317,29 @@ Proof.
   - intros [Hl Hlt]. exists (Lt i). split; [exact Hl|]. unfold named. destruct (Nat.ltb_spec i n); [left; reflexivity|lia].
 Qed.
 
-Lemma ty_ops_range n t a b : In (a, b) (constraints (ty_ops n t)) -> a < n /\ b < n.
+(* the pairs a reference type implies: borrow 'a, argument 'b of the referent, both named *)
+Lemma ref_ops_In n t a b : In (a, b) (constraints (ref_ops n t)) <->
+  exists sp opt tid args, t = TOpaque sp opt (Some (Lt a)) tid args /\ a < n /\ In (Lt b) args /\ b < n.
 Proof.
-  destruct t as [|opt [bl|] tid args|opt bl|opt tid args]; cbn [ty_ops]; try (intros []).
-  destruct (named n bl) as [bi|] eqn:Hn; [|intros []].
-  unfold constraints. cbn [flat_map pairs_of_op]. rewrite app_nil_r. intros H. apply in_map_iff in H.
-  destruct H as [p [Hp Hin]]. inversion Hp; subst. apply named_list_In in Hin. apply named_some in Hn. tauto.
+  split.
+  - destruct t as [|sp opt [bl|] tid args|opt bl|opt tid args]; cbn [ref_ops]; try (intros []).
+    destruct (named n bl) as [bi|] eqn:Hn; [|intros []].
+    unfold constraints. cbn [flat_map pairs_of_op]. rewrite app_nil_r. intros H. apply in_map_iff in H.
+    destruct H as [p [Hp Hin]]. inversion Hp; subst. apply named_list_In in Hin. apply named_some in Hn.
+    destruct Hn as [-> Ha]. exists sp, opt, tid, args. tauto.
+  - intros (sp & opt & tid & args & -> & Ha & Hin & Hb). cbn [ref_ops]. unfold named.
+    destruct (Nat.ltb_spec a n) as [_|]; [|lia]. unfold constraints. cbn [flat_map pairs_of_op]. rewrite app_nil_r.
+    apply in_map_iff. exists b. split; [reflexivity|]. apply named_list_In. tauto.
 Qed.
+
+Lemma ref_ops_range n t a b : In (a, b) (constraints (ref_ops n t)) -> a < n /\ b < n.
+Proof. intros H. apply ref_ops_In in H. destruct H as (? & ? & ? & ? & _ & ? & _ & ?). tauto. Qed.
+
+Lemma ty_ops_sub n t a b : In (a, b) (constraints (ty_ops n t)) -> In (a, b) (constraints (ref_ops n t)).
+Proof. destruct t as [|[|] opt bl tid args|opt bl|opt tid args]; cbn [ty_ops]; auto. intros []. Qed.
+
+Lemma ty_ops_range n t a b : In (a, b) (constraints (ty_ops n t)) -> a < n /\ b < n.
+Proof. intros H. apply (ref_ops_range n t). apply ty_ops_sub. exact H. Qed.
 
 Lemma decl_ops_range n decl a b : decl_ok n decl -> In (a, b) (constraints (decl_ops decl)) -> a < n /\ b < n.
 Proof.
@@ -461,8 +477,33 @@ Lemma rust_edge_recorded ds m : defs_ok ds -> validate_defs ds = true -> sig_ok 
   forall u v, rust_edge ds m u v -> u < m_n m -> reach (m_env m) u v /\ v < m_n m.
 Proof.
   intros Hok Hvd Hsig Hvm u v H Hun. destruct H as [u v Hc|t tid args x y u v Ht Hu Hwf Hx Hy].
-  - destruct Hsig as [Hd _]. assert (Hr : u < m_n m /\ v < m_n m) by (unfold m_ops in Hc; eapply ops_range; eassumption).
-    split; [apply build_complete; tauto|tauto].
+  - pose proof Hsig as [Hd Hall]. unfold spec_ops in Hc. rewrite constraints_app in Hc. apply in_app_iff in Hc.
+    destruct Hc as [Hc|Hc].
+    + assert (Hr : u < m_n m /\ v < m_n m) by (eapply decl_ops_range; eassumption).
+      split; [apply build_complete; [unfold m_ops; rewrite constraints_app; apply in_or_app; left; exact Hc|tauto]|tauto].
+    + unfold constraints in Hc. rewrite flat_map_concat_map in Hc. apply in_concat in Hc. destruct Hc as [l [Hl Hin]].
+      apply in_map_iff in Hl. destruct Hl as [o [<- Ho]]. apply in_flat_map in Ho. destruct Ho as [t [Ht Hot]].
+      assert (Hp : In (u, v) (constraints (ref_ops (m_n m) t))) by (unfold constraints; apply in_flat_map; exists o; split; assumption).
+      apply ref_ops_In in Hp. destruct Hp as (sp & opt & tid & args & -> & Hu' & Hvin & Hv').
+      split; [|exact Hv'].
+      destruct sp.
+      * (* written `Self`: nothing was recorded for the reference, but validation insisted on a declared bound *)
+        unfold validate_method in Hvm. apply andb_true_iff in Hvm. destruct Hvm as [_ Hvm].
+        rewrite forallb_forall in Hvm. specialize (Hvm _ Ht). unfold validate_ty in Hvm. cbn [ty_use ty_self_lt opt_list] in Hvm.
+        apply andb_true_iff in Hvm. destruct Hvm as [Hself _]. cbn [forallb] in Hself. rewrite andb_true_r in Hself.
+        unfold check_link in Hself. rewrite m_env_length in Hself.
+        destruct (Nat.ltb_spec u (m_n m)) as [_|]; [|lia].
+        destruct (Hall _ Ht tid args eq_refl) as (Hlen & _ & _).
+        destruct (In_nth_error _ _ Hvin) as [dl Hdl].
+        assert (Hdl' : dl < length args) by (apply nth_error_Some; rewrite Hdl; discriminate).
+        rewrite forallb_forall in Hself. specialize (Hself dl). rewrite (nth_error_nth _ _ Static Hdl) in Hself.
+        assert (Hs : In dl (seq 0 (d_n (def_of ds tid)))) by (apply in_seq; lia).
+        specialize (Hself Hs). apply orb_true_iff in Hself. destruct Hself as [He|He].
+        -- apply Nat.eqb_eq in He. subst v. apply reach_refl.
+        -- apply reach_one. apply memb_In. exact He.
+      * apply build_complete; [|exact Hu']. unfold m_ops. rewrite constraints_app. apply in_or_app. right.
+        unfold constraints. apply in_flat_map. exists o. split; [|exact Hin].
+        apply in_flat_map. exists (TOpaque false opt (Some (Lt u)) tid args). split; [exact Ht|exact Hot].
   - pose proof Hsig as [Hd Hall]. pose proof (Hall t Ht) as Huse. destruct (Huse _ _ Hu) as (Hlen & Hargs & _).
     pose proof (use_def_In ds t tid args x _ Huse Hu Hx) as Hin.
     destruct (wf_edge_recorded ds Hok Hvd tid x y Hwf Hin) as (Hx' & _ & Hr).
@@ -478,6 +519,17 @@ Proof.
     + rewrite Hy in Hv0. inversion Hv0; subst. rewrite m_env_length in Hv0n. split; assumption.
 Qed.
 
+(* everything the tool records is a bound the signature writes down or implies *)
+Lemma m_ops_sub_spec m a b : In (a, b) (constraints (m_ops m)) -> In (a, b) (constraints (spec_ops m)).
+Proof.
+  unfold m_ops, spec_ops. rewrite !constraints_app, !in_app_iff. intros [H|H]; [left; exact H|right].
+  unfold constraints in *. rewrite flat_map_concat_map in H. apply in_concat in H. destruct H as [l [Hl Hin]].
+  apply in_map_iff in Hl. destruct Hl as [o [<- Ho]]. apply in_flat_map in Ho. destruct Ho as [t [Ht Hot]].
+  assert (Hp : In (a, b) (flat_map pairs_of_op (ty_ops (m_n m) t))) by (apply in_flat_map; exists o; split; assumption).
+  apply (ty_ops_sub (m_n m) t) in Hp. unfold constraints in Hp. apply in_flat_map in Hp. destruct Hp as [o' [Ho' Hin']].
+  apply in_flat_map. exists o'. split; [|exact Hin']. apply in_flat_map. exists t. split; assumption.
+Qed.
+
 (* for an accepted method, a lifetime is forced to outlive 'r by Rust's rules iff the recorded bounds reach it from 'r *)
 Theorem outlives_iff_recorded ds m : defs_ok ds -> validate_defs ds = true -> sig_ok ds m -> validate_method ds m = true ->
   forall r x, r < m_n m -> (outlives ds m r x <-> reach (m_env m) r x).
@@ -487,7 +539,7 @@ Proof.
     destruct (rust_edge_recorded ds m Hok Hvd Hsig Hvm a b Hab Ha) as [Hrb Hb].
     eapply reach_trans; [exact Hrb|apply IH; exact Hb].
   - clear Hr. induction H as [a|a b c Hab _ IH]; [apply Relation_Operators.rt1n_refl|].
-    eapply Relation_Operators.rt1n_trans; [|exact IH]. apply re_own. apply build_sound in Hab. exact Hab.
+    eapply Relation_Operators.rt1n_trans; [|exact IH]. apply re_own. apply build_sound in Hab. apply m_ops_sub_spec. exact Hab.
 Qed.
 
 (* ------------------------------------------------------------------ visit_param / edges_for *)
@@ -547,11 +599,11 @@ Proof.
   assert (Hiff : forall u, In u (all_longer (m_env m) r) <-> outlives ds m r u).
   { intros u. rewrite all_longer_is_closure. symmetry. apply outlives_iff_recorded; assumption. }
   rewrite edges_for_In. split.
-  - intros [p [t [Hp He]]]. destruct t as [|opt b tid args|opt b|opt tid args].
+  - intros [p [t [Hp He]]]. destruct t as [|sp opt b tid args|opt b|opt tid args].
     + destruct He.
     + cbn [visit_param] in He. destruct (touches _ _) eqn:Ht; [|destruct He]. destruct He as [<-|[]].
       apply touches_iff in Ht. destruct Ht as [u [Hu Hin]]. cbn [ty_lts] in Hu.
-      exists opt, b, tid, args, u. split; [exact Hp|split; [exact Hu|apply Hiff; exact Hin]].
+      exists sp, opt, b, tid, args, u. split; [exact Hp|split; [exact Hu|apply Hiff; exact Hin]].
     + cbn [visit_param] in He. destruct opt.
       * destruct (touches _ _) eqn:Ht; [|destruct He]. apply touches_iff in Ht. destruct Ht as [u [Hu Hin]].
         exfalso. apply (Hnp p b u Hp Hu). apply Hiff. exact Hin.
@@ -561,8 +613,8 @@ Proof.
     + apply visit_struct_In in He. destruct He as [slot [u (-> & Hn & Hin)]].
       exists tid, args, u. split; [exact Hp|split; [exact Hn|apply Hiff; exact Hin]].
   - destruct e as [p|p|p slot opt|p]; cbn [spec_edge].
-    + intros (opt & b & tid & args & u & Hp & Hu & Ho). exists p, (TOpaque opt b tid args). split; [exact Hp|].
-      cbn [visit_param]. assert (Ht : touches (all_longer (m_env m) r) (TOpaque opt b tid args) = true).
+    + intros (sp & opt & b & tid & args & u & Hp & Hu & Ho). exists p, (TOpaque sp opt b tid args). split; [exact Hp|].
+      cbn [visit_param]. assert (Ht : touches (all_longer (m_env m) r) (TOpaque sp opt b tid args) = true).
       { apply touches_iff. exists u. split; [exact Hu|apply Hiff; exact Ho]. }
       rewrite Ht. left. reflexivity.
     + intros (opt & b & u & Hp & Hu & Ho). destruct opt; [exfalso; exact (Hnp p b u Hp Hu Ho)|].
@@ -652,12 +704,12 @@ Module Examples.
   (* Op;  struct S<'x, 'y: 'x> { a: &'x Op, b: &'y Op };  struct Outer<'u, 'v: 'u> { inner: S<'u, 'v> } *)
   Definition ds : defs :=
     [ mkDef 0 [] [];
-      mkDef 2 [(1, [0])] [TOpaque false (Some (Lt 0)) 0 []; TOpaque false (Some (Lt 1)) 0 []];
+      mkDef 2 [(1, [0])] [TOpaque false false (Some (Lt 0)) 0 []; TOpaque false false (Some (Lt 1)) 0 []];
       mkDef 2 [(1, [0])] [TStruct false 1 [Lt 0; Lt 1]] ].
   (* fn f<'a, 'b: 'a, 'c: 'b>(o: Outer<'a, 'b>, p: &'c Op, q: &Op) -> &'a Op *)
   Definition m : msig :=
-    mkSig 3 [(1, [0]); (2, [1])] [TStruct false 2 [Lt 0; Lt 1]; TOpaque false (Some (Lt 2)) 0 []; TOpaque false (Some (Lt 3)) 0 []]
-          [TOpaque false (Some (Lt 0)) 0 []].
+    mkSig 3 [(1, [0]); (2, [1])] [TStruct false 2 [Lt 0; Lt 1]; TOpaque false false (Some (Lt 2)) 0 []; TOpaque false false (Some (Lt 3)) 0 []]
+          [TOpaque false false (Some (Lt 0)) 0 []].
 
   Example hypotheses_hold :
     defs_okb ds = true /\ validate_defs ds = true /\ sig_okb ds m = true /\ validate_method ds m = true /\ In 0 (ret_lts m).
@@ -668,8 +720,8 @@ Module Examples.
 
   (* the same method without the bound 'b: 'a that Outer requires is rejected ... *)
   Definition m_unrestated : msig :=
-    mkSig 3 [(2, [1])] [TStruct false 2 [Lt 0; Lt 1]; TOpaque false (Some (Lt 2)) 0 []; TOpaque false (Some (Lt 3)) 0 []]
-          [TOpaque false (Some (Lt 0)) 0 []].
+    mkSig 3 [(2, [1])] [TStruct false 2 [Lt 0; Lt 1]; TOpaque false false (Some (Lt 2)) 0 []; TOpaque false false (Some (Lt 3)) 0 []]
+          [TOpaque false false (Some (Lt 0)) 0 []].
   Example unrestated_is_rejected : validate_method ds m_unrestated = false.
   Proof. vm_compute. reflexivity. Qed.
 
@@ -687,11 +739,23 @@ Module Examples.
   Qed.
 
   (* the recorded finding: fn g<'a>(s: Option<&'a [u8]>) -> &'a Op makes visit_param hit unreachable!() *)
-  Definition m_opt_slice : msig := mkSig 1 [] [TSlice true (Some (Lt 0))] [TOpaque false (Some (Lt 0)) 0 []].
+  Definition m_opt_slice : msig := mkSig 1 [] [TSlice true (Some (Lt 0))] [TOpaque false false (Some (Lt 0)) 0 []].
   Example opt_slice_panics :
     validate_method ds m_opt_slice = true /\ edges_for m_opt_slice 0 = [EPanic 0] /\ ~ no_borrowed_opt_slice ds m_opt_slice 0.
   Proof.
     split; [vm_compute; reflexivity|]. split; [vm_compute; reflexivity|].
     intros H. apply (H 0 (Some (Lt 0)) 0); [reflexivity|left; reflexivity|apply Relation_Operators.rt1n_refl].
   Qed.
+
+  (* impl<'h> H<'h> { fn pick<'a>(&self, other: &'a Self, x: &'h Op) -> &'a Op }: with the type written `Self` nothing is
+     recorded for the reference, so the method is rejected unless 'h: 'a is declared; written as `&'a H<'h>` the implied
+     bound is recorded and the method is accepted. Either way the accepted method reports `x`. *)
+  Definition dh : defs := [mkDef 0 [] []; mkDef 1 [] []].
+  Definition pick (sp : bool) (decl : list (nat * list nat)) : msig :=
+    mkSig 2 decl [TOpaque false false (Some (Lt 2)) 1 [Lt 0]; TOpaque sp false (Some (Lt 1)) 1 [Lt 0]; TOpaque false false (Some (Lt 0)) 0 []]
+          [TOpaque false false (Some (Lt 1)) 0 []].
+  Example self_spelling :
+    validate_method dh (pick true []) = false /\ validate_method dh (pick false []) = true /\ validate_method dh (pick true [(0, [1])]) = true /\
+    edges_for (pick false []) 1 = [EOpaque 0; EOpaque 1; EOpaque 2] /\ edges_for (pick true [(0, [1])]) 1 = [EOpaque 0; EOpaque 1; EOpaque 2].
+  Proof. repeat split; vm_compute; reflexivity. Qed.
 End Examples.
